@@ -294,6 +294,10 @@ def run_special(cfg, seed, scenario):
     'incompatible:<kind>' — a peer that answers SYN and CONNECT correctly at packet level but with whom no connection can be
         established: kind = creds-vs-keyless (the client presents a ticket to a port served without a key: the connection response
         is empty) | keyless-vs-keyed (a client without credentials at a keyed port); then a compatible client from the same address.
+    'unread-unreliable:<side>' — <side> (c|s) sends 150 unreliable datagrams that the receiving application never reads, then
+        reliable traffic, a graceful disconnect and a reconnect must go on as usual;
+    'extra-substreams:<who>' — <who> (c|s) is configured with 3 substreams, the peer with 1 (negotiated: 1); the application has a
+        recv pending on EVERY configured substream when the connection ends (graceful disconnect by the client).
     Same result shape as run()."""
     rng = random.Random(seed)
     out = ps.Session()
@@ -304,6 +308,14 @@ def run_special(cfg, seed, scenario):
     with Sim(seed) as sim:
         s = cfg.settings()
         out.settings = out.settings_s = s
+        s_srv = s
+        if kind == "extra-substreams":
+            import copy
+            big, small = copy.copy(cfg), copy.copy(cfg)
+            big.max_substream, small.max_substream = 2, 0
+            s, s_srv = (big.settings(), small.settings()) if arg == "c" else (small.settings(), big.settings())
+            out.settings, out.settings_s = s, s_srv
+            out.cfg, out.cfg_s = (big, small) if arg == "c" else (small, big)
         sim.install_factories(fixed_client_addr=True)
         sim.net.fate = lambda tx: [0.01]
         good, session_key = (None, b"")
@@ -356,6 +368,14 @@ def run_special(cfg, seed, scenario):
             out.ops.append([name, sim.now(), None, None]); return len(out.ops) - 1
         def op_end(i, outcome):
             out.ops[i][2] = sim.now(); out.ops[i][3] = outcome
+
+        async def sub_reader(side, client, sub):
+            i = op_start("recv(%d)@%s" % (sub, side))
+            try:
+                while True:
+                    await client.recv(sub)
+            except anyio.EndOfStream:
+                op_end(i, "eof")
 
         async def reader(side, client):
             i = op_start("recv@" + side)
@@ -438,7 +458,16 @@ def run_special(cfg, seed, scenario):
                     op_end(hi, "raised")
             hi = op_start("handler")
             async with anyio.create_task_group() as tg:
-                tg.start_soon(ureader, "s", client)
+                if scenario != "unread-unreliable:c":
+                    tg.start_soon(ureader, "s", client)
+                if kind == "extra-substreams":
+                    for k in range(1, s_srv["prudp.max_substream_id"] + 1):
+                        tg.start_soon(sub_reader, "s", client, k)
+                if scenario == "unread-unreliable:s":
+                    for j in range(150):
+                        log.append(("app", sim.now(), "s", "sendu", 0, b"u%d" % j))
+                        await client.send_unreliable(b"u%d" % j)
+                    tg.start_soon(send, "s", client, b"after the burst")
                 if scenario == "local-close:s":
                     tg.start_soon(closer, "s", client, 0.2617)
                 await reader("s", client)
@@ -448,7 +477,7 @@ def run_special(cfg, seed, scenario):
             op_end(hi, "returned")
 
         async def main():
-            async with prudp.serve_transport(s, SERVER[0], SERVER[1]) as transport:
+            async with prudp.serve_transport(s_srv, SERVER[0], SERVER[1]) as transport:
                 async with transport.serve(handler, 1, 10, server_key):
                     stream_ref["stream"] = transport.ports.get(1, 10)
                     ci = op_start("connect")
@@ -460,8 +489,23 @@ def run_special(cfg, seed, scenario):
                             log.append(("app", sim.now(), "c", "connected", 0, b""))
                             async with anyio.create_task_group() as tg:
                                 tg.start_soon(reader, "c", client)
-                                tg.start_soon(ureader, "c", client)
+                                if scenario != "unread-unreliable:s":
+                                    tg.start_soon(ureader, "c", client)
+                                if kind == "extra-substreams":
+                                    for k in range(1, s["prudp.max_substream_id"] + 1):
+                                        tg.start_soon(sub_reader, "c", client, k)
                                 await send("c", client, b"hello " * 5)
+                                if scenario == "unread-unreliable:c":
+                                    for j in range(150):
+                                        log.append(("app", sim.now(), "c", "sendu", 0, b"u%d" % j))
+                                        await client.send_unreliable(b"u%d" % j)
+                                    await send("c", client, b"after the burst")
+                                if kind in ("unread-unreliable", "extra-substreams"):
+                                    await anyio.sleep(quant(0.2617))
+                                    di = op_start("disconnect")
+                                    log.append(("app", sim.now(), "c", "disconnect", 0, b""))
+                                    await client.disconnect()
+                                    op_end(di, "returned")
                                 if scenario == "local-close:c":
                                     await closer("c", client, 0.2617)
                                 if scenario == "handler-raises:eof":
